@@ -333,7 +333,7 @@ class Rd(ReadBase):
         for i in range(n):
             name, path = rng.choice(pool)
             data = mutate(rng, open(path, 'rb').read())
-            mp = os.path.join(d, f'm{os.getpid()}_{i}')
+            mp = os.path.join(d, f'm{os.getpid()}_{i}_{name}')     # the origin stays visible to known-finding classes
             open(mp, 'wb').write(data)
             src = rng.choice(['cbk', 'cb', 'cbs', 'mem:512'])
             blk = rng.choice(['w', '1', '7', '512', 'r3']) if len(data) < 20000 else rng.choice(['w', '512', 'r3'])
